@@ -45,6 +45,8 @@ void Exec::run() {
 	world.fill_on = (int)plan.knobi("mem.fill", 0); world.fill_seed = (unsigned)plan.knobi("mem.fill", 0);
 	world.lu_refactor_every = (int)plan.knobi("lu.refactor_every", 0);
 	capture_drain(1); capture_drain(2);
+	for (auto &t : split(plan.knob("avoid"), ',')) if (!t.empty()) avoid.insert(t);
+	QSexact_set_precision(cur_precision);
 	T("plan " + plan.profile);
 	long maxops = plan.knobi("maxops", 100000);
 	for (size_t k = 0; k < plan.ops.size() && !stop && (long)k < maxops; k++) {
@@ -55,6 +57,7 @@ void Exec::run() {
 		for (auto &f : op->faults) { line += " [" + f.kind; for (auto &kv : f.a) line += " " + kv.first + "=" + kv.second; line += "]"; }
 		T(line);
 		do_op();
+		if (trace) for (auto &m : world.log) out_line("L   " + m.substr(0, 200));
 		res.ops_executed++;
 		for (auto &kv : world.io_fired) { res.faults_fired[kv.first] += kv.second; } world.io_fired.clear();
 		for (auto &kv : world.flt_fired) { res.faults_fired[kv.first] += kv.second; } world.flt_fired.clear();
@@ -74,6 +77,7 @@ void Exec::run() {
 	res.probes["lu.updates"] += world.lu_updates; res.probes["lu.factors"] += world.lu_factors;
 	res.probes["log.messages"] += world.log_total;
 	res.probes["copies.checked"] += world.copies_checked;
+	if (res.ops_executed >= 3) { nontrivial("C17"); nontrivial("C20"); nontrivial("C18"); }
 	T("end");
 	res.transcript_hash = th.h;
 	W = 0;
@@ -87,7 +91,7 @@ void Exec::end_of_history() {
 		if (cfgs.size() >= 2) nontrivial("C04");
 		for (size_t i = 1; i < v.size(); i++) {
 			if (v[i].status != v[0].status || (v[0].status == QS_LP_OPTIMAL && v[i].value != v[0].value)) {
-				violate("C04", "config-disagree:" + status_name(v[0].status) + "/" + status_name(v[i].status),
+				violate("C04", "config-disagree:" + v[0].how + "-" + status_name(v[0].status) + "/" + v[i].how + "-" + status_name(v[i].status),
 					strf("same LP, step %d [%s] gave %s %s but step %d [%s] gave %s %s", v[0].step, v[0].config.c_str(), status_name(v[0].status).c_str(), qstr(v[0].value).c_str(),
 						v[i].step, v[i].config.c_str(), status_name(v[i].status).c_str(), qstr(v[i].value).c_str()));
 				break;
@@ -207,7 +211,7 @@ void Exec::op_param(Client &c) {
 	else if (what == "dprice") { static const int dp[] = {QS_PRICE_DDANTZIG, QS_PRICE_DSTEEP, QS_PRICE_DMULTPARTIAL, QS_PRICE_DDEVEX}; int val = dp[modn(v, 4)]; rv = mpq_QSset_param(o->p, QS_PARAM_DUAL_PRICING, val); o->iparam[QS_PARAM_DUAL_PRICING] = val; }
 	else if (what == "display") { int val = modn(v, 4); rv = mpq_QSset_param(o->p, QS_PARAM_SIMPLEX_DISPLAY, val); o->iparam[QS_PARAM_SIMPLEX_DISPLAY] = val; }
 	else if (what == "scaling") { int val = modn(v, 2); rv = mpq_QSset_param(o->p, QS_PARAM_SIMPLEX_SCALING, val); o->iparam[QS_PARAM_SIMPLEX_SCALING] = val; }
-	else if (what == "precision") { static const unsigned pr[] = {64, 128, 192, 256, 512, 1024}; QSexact_set_precision(pr[modn(v, 6)]); }
+	else if (what == "precision") { static const unsigned pr[] = {64, 128, 192, 256, 512, 1024}; cur_precision = pr[modn(v, 6)]; QSexact_set_precision(cur_precision); }
 	else { T("  unknown param (skipped)"); return; }
 	after_lib_call("param");
 	T(strf("  param %s rv=%d", what.c_str(), rv));
